@@ -98,10 +98,21 @@ static void frames(struct Camera* cam, const Cfg& c, int step, int n)
         if (camera_start(cam) != Device_Ok) { fail("restart-failed", "step %d", step); return; }
     }
     uint64_t last = 0;
+    std::vector<uint8_t> first;
     for (int i = 0; i < n; ++i) {
         uint8_t* buf = (uint8_t*)malloc(need); // exactly the image size: ASan sees one byte too many
+        // "fills exactly that many image bytes": the buffer is pre-filled with 0xA5 for the first and 0x5A for the second frame;
+        // a byte that still holds the respective sentinel after BOTH calls was written by neither
+        memset(buf, i == 0 ? 0xA5 : 0x5A, need);
         size_t nb = need; struct ImageInfo info; memset(&info, 0, sizeof info);
         enum DeviceStatusCode rc = camera_get_frame(cam, buf, &nb, &info);
+        if (rc == Device_Ok && i == 0) first.assign(buf, buf + need);
+        if (rc == Device_Ok && i == 1 && first.size() == need) {
+            size_t untouched = 0, firstpos = 0;
+            for (size_t k = 0; k < need; ++k) if (first[k] == 0xA5 && buf[k] == 0x5A) { if (!untouched) firstpos = k; ++untouched; }
+            size_t tolerated = need / 64 + 4; // a random image may hit both sentinels by chance (1/65536 per byte)
+            if (untouched > tolerated) fail("frame-not-filled", "step %d cfg %s: %zu of the %zu image bytes of the caller's buffer were written by neither of two frame calls (first at offset %zu)", step, cfg_str(c).c_str(), untouched, need, firstpos);
+        }
         free(buf);
         if (rc != Device_Ok) { fail("get-frame-failed", "step %d cfg %s frame %d", step, cfg_str(c).c_str(), i); break; }
         if (i && info.hardware_frame_id <= last) { fail("frame-id-not-increasing", "step %d: %llu after %llu", step, (unsigned long long)info.hardware_frame_id, (unsigned long long)last); break; }
